@@ -46,7 +46,7 @@ const (
 	opOwnedModify
 	opOwnedTeardown
 	opSafeModify
-	opUWCTD // expected phase tearing down
+	opUWCTD      // expected phase tearing down
 	opUWCSame    // idempotent mutator: every caller sets the same label
 	opModifySame // ModifyWithResult with the same idempotent mutator
 	nOps
